@@ -2,6 +2,7 @@
 BASE = ['src/base/QXmppIq.cpp', 'src/base/QXmppStanza.cpp', 'src/base/QXmppUtils.cpp', 'src/base/QXmppElement.cpp', 'src/base/QXmppNonza.cpp']
 MGR_TUS = BASE + ['src/client/QXmppIqHandling.cpp', 'src/client/QXmppClientExtension.cpp', 'src/base/QXmppVCardIq.cpp', 'src/base/QXmppRosterIq.cpp',
                   'src/base/QXmppDiscoveryIq.cpp', 'src/base/QXmppVersionIq.cpp', 'src/base/QXmppEntityTimeIq.cpp', 'src/base/QXmppDataForm.cpp']
+CLI_TUS = BASE + ['src/client/QXmppClient.cpp', 'src/client/QXmppOutgoingClient.cpp', 'src/client/QXmppClientExtension.cpp', 'src/base/QXmppStreamManagement.cpp', 'src/base/QXmppStreamFeatures.cpp']
 MODELS = ['qt_core.c', 'qt_list.c', 'qt_dom.c', 'qt_object.c', 'c08_models.c']
 def I(name, **kw):
     d = dict(name=name, entry='h_' + name, unwind=8, timeout_s=300, mem_gb=6, object_bits=12, bound=''); d.update(kw); return d
@@ -11,6 +12,8 @@ SPEC = dict(
         dict(name='mgr', harness='h_mgr.cpp', tus=MGR_TUS, models=MODELS + ['c08_mgr.c'], shadow_task=True,
              instances=[I('iqh_check'), I('iqh_check_noiq'), I('iqh_reply'), I('iqh_handle_result'), I('iqh_handle_error'), I('iqh_handle_erroriq'), I('iqh_handle_resp')] +
                        [I('mgr_%s_%s' % (m, k)) for m in ('version', 'time', 'disco', 'vcard', 'roster') for k in ('req', 'resp')]),
+        dict(name='client', harness='h_client.cpp', tus=CLI_TUS, models=MODELS + ['c08_client.c'], shadow_task=True, loop_bounds={r'^_ZNSt6ranges14__copy_or_move': 110},
+             instances=[I('cli_' + n) for n in ('inject_req', 'inject_resp', 'inject_e2ee_req', 'inject_e2ee_resp', 'inject_noiq', 'stream_req', 'stream_resp', 'fallback_req', 'fallback_resp')]),
     ],
     bounds=[], assumptions=[], outside=[],
 )
